@@ -4,7 +4,18 @@ The code builds its own generator with `np.random.RandomState(seed)`, so the har
 *inside the module elfi.methods.mcmc* for a proxy whose `random.RandomState` is a recording subclass of
 the real class (same seed, same stream: checked against an unpatched run on every case) and whose `exp`
 records its arguments and values.  Nothing under /repo is edited.
+
+Wave 3: besides single calls, HISTORIES of calls in one process (several nuts()/metropolis() calls on the same
+target callable objects and on different ones, equal and different seeds/starts/settings, step size given or
+searched).  Every call is recorded where it stands in the history (through the live module elfi.methods.mcmc,
+with the shared callables / start objects, a recorder of its own per call) and once more as the only call ever
+made: through a freshly executed image of the module's source file, brand-new callables and argument objects.
+Both records are interned together and handed to Coq (Nuts.hok); python side the two records must be identical
+down to every generator draw and target / gradient evaluation, and calls with identical arguments must return
+identical bytes.
 """
+import copy
+import importlib.util
 import math
 import types
 import numpy as np
@@ -185,6 +196,7 @@ class Rec:
     def __init__(self):
         self.ev = []          # global event list: ('randn', arr) ('rand', u) ('exponential', e) ('exp', x, r) ('target', x, v)
         self.last_exp = None
+        self.grads = []       # arguments of the gradient callable (histories only)
 
 
 class RecRS(np.random.RandomState):
@@ -276,6 +288,75 @@ def fbytes(x):
 
 
 # ----------------------------------------------------------------------------------------------
+# histories (wave 3): shared callables, a fresh image of the module
+# ----------------------------------------------------------------------------------------------
+
+TSTYLES = ('func', 'method', 'callable')
+
+
+class TargetBox:
+    """one log-target (+ gradient) of a history.  Every call of the history that uses it is handed the SAME
+    callables: 'func' = the same two function objects, 'method' = bound methods of this object (a new bound-method
+    object per access, equal by == and hash: what BOLFI.sample passes, posterior.logpdf / posterior.gradient_logpdf),
+    'callable' = this object itself (__call__) and a bound method.  `rec` is the recorder of the call in progress."""
+
+    def __init__(self, spec, style, wrapnp=False):
+        self.f, self.g = make_target(spec)
+        self.style = style
+        self.wrapnp = wrapnp
+        self.rec = None
+
+        def target(x):
+            return self.logpdf(x)
+
+        def grad(x):
+            return self.gradient_logpdf(x)
+        self._funcs = (target, grad)
+
+    def logpdf(self, x):
+        v = self.f(x)
+        if self.rec is not None:
+            self.rec.ev.append(('target', np.array(x, dtype=float, copy=True).ravel(), float(v)))
+        return np.float64(v) if self.wrapnp else v
+
+    def gradient_logpdf(self, x):
+        if self.rec is not None:
+            self.rec.grads.append(abytes(x))
+        return self.g(x)
+
+    def __call__(self, x):
+        return self.logpdf(x)
+
+    def callables(self):
+        if self.style == 'func':
+            return self._funcs
+        if self.style == 'method':
+            return self.logpdf, self.gradient_logpdf
+        return self, self.gradient_logpdf
+
+
+def fresh_module():
+    """a new image of elfi/methods/mcmc.py: the module's source executed again into a new namespace, so that every
+    module-level object (functions, their attributes, any module-level container) is in its initial state"""
+    from elfi.methods import mcmc
+    spec = importlib.util.spec_from_file_location('elfi.methods._c09_fresh_mcmc', mcmc.__file__)
+    mod = importlib.util.module_from_spec(spec)
+    spec.loader.exec_module(mod)
+    return mod
+
+
+def raw_signature(res, rec):
+    """everything observable of one recorded call, as bytes: outcome, generator draws, target / exp / gradient calls"""
+    sig = dict(res=(res if isinstance(res, str) else [list(res.shape), res.tobytes().hex()]))
+    sig['stream'] = [[e[0], (abytes(e[1]) if e[0] == 'randn' else fbytes(e[1])).hex()] for e in rec.ev
+                     if e[0] in ('randn', 'rand', 'exponential')]
+    sig['target'] = [[abytes(e[1]).hex(), fbytes(e[2]).hex()] for e in rec.ev if e[0] == 'target']
+    sig['exp'] = [[fbytes(e[1]).hex(), fbytes(e[2]).hex()] for e in rec.ev if e[0] == 'exp']
+    sig['grad'] = [b.hex() for b in rec.grads]
+    return sig
+
+
+# ----------------------------------------------------------------------------------------------
 # the check
 # ----------------------------------------------------------------------------------------------
 
@@ -287,8 +368,8 @@ class C09(PropCheck):
     pid = 'C09'
     header = ('From Coq Require Import List NArith ZArith Bool PrimFloat.\n'
               'From Elfi Require Import Base.Harness Num.Mcmc Num.Nuts.\nImport ListNotations.\n')
-    case_type = 'Nuts.c09case'
-    preds = (('Nuts.agree', 'agree'), ('Nuts.ok', 'ok'))
+    case_type = 'Nuts.c09top'
+    preds = (('Nuts.agree_t', 'agree'), ('Nuts.ok_t', 'ok'))
     chunk = 40
     rule = ('metropolis: targets gauss/box(-inf outside)/flatbox/nanzone/posinf/steps/mixed, dims 1-3, starting point stored as '
             'float64/float32/float16/big-endian float, int64/int32/int16/int8/uint8/uint16/uint32/bool array (plain, strided view, '
@@ -300,10 +381,22 @@ class C09(PropCheck):
             'accepted and one rejected proposal.  nuts: 1-D arrays dims 1-3 in the same storage kinds (plain/strided/negative-stride/'
             'read-only), n_iter 1-10, n_adapt None/0/1/n_iter-1/n_iter/random, '
             'max_depth 0-4, given or searched stepsize, same target kinds; non-trivial = run with an internal tree node that made '
-            'both recursive calls and at least one accepted proposal; distinct by full case')
+            'both recursive calls and at least one accepted proposal; distinct by full case.  histories (wave 3): 2-5 calls in ONE '
+            'process (nuts only / metropolis only / mixed) on 1-2 log-targets, each target ONE set of callable objects for all its calls '
+            '(the same function objects / bound methods of one object / a callable instance), a pool of 1-3 starts (a start object '
+            'shared between calls or rebuilt) and 1-2 seeds, settings drawn per call, step size searched (60%) or given, about 30% of the '
+            'later calls repeat an earlier call exactly; every call is recorded where it stands (live module, recorder of its own) and '
+            'as the only call ever made (new image of the module source, new callables and objects), both records go to Coq (Nuts.hok: '
+            'result = model replay of the fresh record, same draws / search length / step sizes, single-call property on both), python '
+            'side: the two raw logs (result bytes, every generator draw, every target / gradient / exp call) are identical and calls '
+            'with identical arguments are bit-identical; non-trivial = two or more calls on one target callable returned a chain')
     trusted = ('the harness proxy for the name `np` inside elfi.methods.mcmc (recording RandomState subclass, recording exp); '
                'its transparency is re-tested on every seeded case against an unpatched run (bit-identical chain)',
-               'NUTS: interning of arrays/floats by their bytes; the U-turn table is recomputed by the harness with np.inner on the logged arrays')
+               'NUTS: interning of arrays/floats by their bytes; the U-turn table is recomputed by the harness with np.inner on the logged arrays',
+               'histories: "the call made alone" is realised in the harness process by executing the source file of elfi.methods.mcmc into a '
+               'new module object and building new callables / argument objects (state kept outside that module and not keyed on the '
+               'callables or arguments would be shared by both records; it would still show as a difference between calls with identical arguments '
+               'or against the independent RandomState(seed) stream)')
 
     # -- generation ------------------------------------------------------------------------------
     def _target_spec(self, r, d, kinds):
@@ -428,6 +521,67 @@ class C09(PropCheck):
         self.bump('nuts:x0_layout=' + layout)
         return case
 
+    def gen_history(self, r):
+        """2-5 calls in one process: 1-2 log-targets (each ONE set of callable objects for all its calls), a small pool of
+        starts and seeds, so that calls share a target / start / seed or not; about a third of the later calls repeat an
+        earlier call exactly"""
+        mode = r.choice(['nuts'] * 5 + ['mixed'] * 2 + ['met'] * 2)
+        d = r.choice([1, 2, 2, 3])
+        kinds = TKINDS_MET if mode == 'met' else TKINDS_NUTS
+        nt = r.choice([1, 1, 2])
+        targets = [self._target_spec(r, d, kinds) for _ in range(nt)]
+        styles = [r.choice(TSTYLES) for _ in range(nt)]
+        wrapnp = [mode == 'met' and r.random() < 0.5 for _ in range(nt)]
+        starts = []
+        for _ in range(r.choice([1, 2, 2, 3])):
+            kind, layout = ('f64', 'plain')
+            if r.random() < 0.3:
+                kind, layout = self._kind(r, LAYOUTS_1D)
+                if kind in OUT_OF_DOMAIN:
+                    kind, layout = 'f64', r.choice(LAYOUTS_1D)
+            how = r.choice(['valid'] * 12 + ['neginf', 'nan'])
+            spec = r.choice(targets)
+            x0 = self._start(r, spec, d, how, kind) or self._start(r, spec, d, 'valid', kind) or quantise([0.0] * d, kind)
+            starts.append(dict(x0=x0, kind=kind, layout=layout))
+        seeds = [r.choice([0, 1, r.randrange(2 ** 32), r.randrange(1000)]) for _ in range(r.choice([1, 2, 2]))]
+        calls = []
+        n_rep = 0
+        for _ in range(r.choice([2, 2, 3, 3, 4, 5])):
+            if calls and r.random() < 0.3:
+                calls.append(copy.deepcopy(r.choice(calls)))          # the same call again
+                n_rep += 1
+                continue
+            alg = 'nuts' if mode == 'nuts' else 'metropolis' if mode == 'met' else r.choice(['nuts', 'metropolis'])
+            ts, ss = r.randrange(nt), r.randrange(len(starts))
+            st = starts[ss]
+            c = dict(alg=alg, d=d, tslot=ts, sslot=ss, share_start=r.random() < 0.6, target=targets[ts], x0=list(st['x0']),
+                     x0_kind=st['kind'], x0_layout=st['layout'], seed=r.choice(seeds))
+            if alg == 'nuts':
+                n_iter = r.choice([1, 2, 3, 4, 6])
+                c.update(n_iter=n_iter, n_adapt=r.choice([None, None, 0, 1, n_iter, n_iter - 1, r.randint(0, n_iter + 1)]),
+                         max_depth=r.choice([0, 1, 2, 2, 3]), stepsize=r.choice([None] * 6 + [0.1, 0.3, 0.5, 1.5]),
+                         target_prob=r.choice([0.6, 0.6, 0.8]))
+            else:
+                sigma, skind = self._sigma(r, d, st['layout'])
+                c.update(sigma=sigma, sigma_kind=skind, n=r.choice([0, 1, 2, 3, 5, 8]), warmup=r.choice([0, 0, 1, 2, 3]), rs='seed',
+                         ret='np' if wrapnp[ts] else 'float')
+            calls.append(c)
+        search = {}
+        for c in calls:
+            if c['alg'] == 'nuts':
+                self.bump('hist:nuts_stepsize=' + ('search' if c['stepsize'] is None else 'given'))
+                if c['stepsize'] is None:
+                    search[c['tslot']] = search.get(c['tslot'], 0) + 1
+        self.bump('hist:mode=' + mode)
+        self.bump('hist:n_calls=%d' % len(calls))
+        self.bump('hist:n_targets=%d' % nt)
+        self.bump('hist:n_repeated_calls=%d' % n_rep)
+        self.bump('hist:searched_stepsize_calls_on_one_target=%d' % max([0] + list(search.values())))
+        for sty in styles:
+            self.bump('hist:callable=' + sty)
+        self.bump('hist:shared_start_object=%s' % any(c['share_start'] for c in calls))
+        return dict(alg='history', d=d, mode=mode, targets=targets, styles=styles, wrapnp=wrapnp, calls=calls)
+
     def generate(self):
         r = self.rng
         k = 1 if self.tier == 'quick' else 12
@@ -437,6 +591,8 @@ class C09(PropCheck):
             yield self.gen_nuts(r)
         for _ in range(30 * k):          # dedicated stream: adaptation ends on the last iteration
             yield self.gen_nuts(r, edge=True)
+        for _ in range(70 * k):          # histories of calls in one process
+            yield self.gen_history(r)
         yield dict(alg='moments', seed=12345)
 
     # -- implementation drivers --------------------------------------------------------------------
@@ -445,6 +601,8 @@ class C09(PropCheck):
             return self.run_met(case)
         if case['alg'] == 'nuts':
             return self.run_nuts(case)
+        if case['alg'] == 'history':
+            return self.run_history(case)
         return self.run_moments(case)
 
     def _params0(self, case):
@@ -467,18 +625,7 @@ class C09(PropCheck):
                 if rec is not None:
                     rec.ev.append(('target', np.array(x, dtype=float, copy=True).ravel(), float(v)))
                 return np.float64(v) if wrapnp else v
-            try:
-                res = mcmc.metropolis(case['n'], params0, rtarget, sigma, warmup=case['warmup'], seed=case['seed'])
-                dtypes.append(str(getattr(res, 'dtype', type(res).__name__)))
-                return np.array(res, dtype=float)
-            except ValueError as e:
-                if 'Bad initialization' in str(e):
-                    return 'badinit'
-                raise
-            except (AttributeError, IndexError, TypeError):
-                if kind in OUT_OF_DOMAIN:
-                    return 'rejected'      # the entry point does not take this container
-                raise
+            return self._met_invoke(mcmc, case, params0, sigma, rtarget, dtypes)
 
         rec = Rec()
         factory = (lambda seed: RecRS(seed, rec)) if case['rs'] == 'seed' else (lambda seed: ScriptRS(seed, rec))
@@ -488,6 +635,145 @@ class C09(PropCheck):
             res = call(rec)
         finally:
             mcmc.np = old
+        out = self._met_out(res, rec, params0, dtypes[0] if dtypes else None)
+        if case['rs'] == 'seed' and out['res'] != 'rejected':
+            plain = call(None)
+            again = call(None)
+            same = (isinstance(plain, str) and plain == res) or (not isinstance(plain, str) and not isinstance(res, str)
+                                                               and plain.tobytes() == res.tobytes())
+            det = (isinstance(plain, str) and plain == again) or (not isinstance(plain, str) and not isinstance(again, str)
+                                                                 and plain.tobytes() == again.tobytes())
+            out['plain_same'] = bool(same)
+            out['deterministic'] = bool(det)
+            # the stream an independent RandomState(seed) yields for the same calls
+            out['stream_independent'] = self._stream_independent(case, out, np.shape(params0))
+        out['inputs_untouched'] = bool((snapshot(params0), snapshot(sigma)) == snap0)
+        return out
+
+    @staticmethod
+    def _met_invoke(mod, case, params0, sigma, target, dtypes):
+        """one metropolis() call through module `mod`: the returned array as float64, or an outcome string"""
+        try:
+            res = mod.metropolis(case['n'], params0, target, sigma, warmup=case['warmup'], seed=case['seed'])
+            dtypes.append(str(getattr(res, 'dtype', type(res).__name__)))
+            return np.array(res, dtype=float)
+        except ValueError as e:
+            if 'Bad initialization' in str(e):
+                return 'badinit'
+            raise
+        except (AttributeError, IndexError, TypeError):
+            if case.get('x0_kind', 'f64') in OUT_OF_DOMAIN:
+                return 'rejected'      # the entry point does not take this container
+            raise
+
+    @staticmethod
+    def _nuts_invoke(mod, case, params0, target, grad, dtypes):
+        """one nuts() call through module `mod`: the returned array as float64, or an outcome string"""
+        kw = dict(n_adapt=case['n_adapt'], target_prob=case['target_prob'], max_depth=case['max_depth'], seed=case['seed'],
+                  stepsize=case['stepsize'])
+        try:
+            res = mod.nuts(case['n_iter'], params0, target, grad, **kw)
+            dtypes.append(str(getattr(res, 'dtype', type(res).__name__)))
+            return np.array(res, dtype=float)
+        except (AttributeError, IndexError, TypeError) as e:
+            if case.get('x0_kind', 'f64') in OUT_OF_DOMAIN:
+                return 'rejected'      # the entry point does not take this container
+            return 'crash: %s: %s' % (type(e).__name__, e)
+        except ValueError as e:
+            if 'Bad initialization' in str(e):
+                return 'badinit'
+            if 'Cannot find acceptable stepsize' in str(e):
+                return 'initfail'
+            return 'crash: %s: %s' % (type(e).__name__, e)
+        except SystemExit as e:
+            return 'initfail'
+        except Exception as e:
+            return 'crash: %s: %s' % (type(e).__name__, e)
+
+    @staticmethod
+    def _stream_independent(case, out, shp):
+        """the recorded draws are those an independent RandomState(seed) yields for the same calls"""
+        rs = np.random.RandomState(case['seed'])
+        ind = []
+        for _ in range(len(out['stream']) // 2):
+            ind.append(['n', [fh(x) for x in rs.randn(*shp).ravel()]])
+            ind.append(['u', fh(rs.rand())])
+        return ind == out['stream']
+
+    # -- histories of calls in one process (wave 3) ----------------------------------------------------
+    def _one_call(self, mod, c, box, params0):
+        """one recorded call of a history through module `mod` on the callables of `box`, with a recorder of its own"""
+        rec = Rec()
+        dtypes = []
+        snap = [snapshot(params0)]
+        t, g = box.callables()
+        box.rec = rec
+        try:
+            if c['alg'] == 'nuts':
+                res, top = self._nuts_patched(mod, rec, lambda: self._nuts_invoke(mod, c, params0, t, g, dtypes))
+            else:
+                sigma = build_sigma(c['sigma'], c.get('sigma_kind', 'f64'), np.shape(params0))
+                snap.append(snapshot(sigma))
+                old = mod.np
+                mod.np = NpProxy(rec, lambda seed: RecRS(seed, rec))
+                try:
+                    res, top = self._met_invoke(mod, c, params0, sigma, t, dtypes), None
+                finally:
+                    mod.np = old
+                snap.append(snapshot(sigma))
+        finally:
+            box.rec = None
+        untouched = (snapshot(params0) == snap[0]) and (len(snap) < 3 or snap[1] == snap[2])
+        return dict(res=res, rec=rec, top=top, dtype=(dtypes[0] if dtypes else None), params0=params0, untouched=bool(untouched))
+
+    def _call_out(self, c, raw, f, interns):
+        """the single-call record of one raw call of a history"""
+        if c['alg'] == 'nuts':
+            out = dict(alg='nuts', inputs_untouched=raw['untouched'], plain_same=True, deterministic=True)
+            return self._nuts_canon(c, out, raw['res'], raw['rec'], raw['top'], np.array(c['x0'], dtype=float), f, raw['params0'],
+                                    raw['dtype'], interns)
+        out = self._met_out(raw['res'], raw['rec'], raw['params0'], raw['dtype'])
+        out.update(inputs_untouched=raw['untouched'], plain_same=True, deterministic=True)
+        out['stream_independent'] = bool(self._stream_independent(c, out, np.shape(raw['params0'])))
+        return out
+
+    def run_history(self, case):
+        from elfi.methods import mcmc
+        calls = case['calls']
+        boxes = [TargetBox(spec, style, wrap) for spec, style, wrap in zip(case['targets'], case['styles'], case['wrapnp'])]
+        shared = {}
+        here = []
+        for c in calls:                                   # the history, in order, through the live module
+            if c['share_start']:
+                if c['sslot'] not in shared:
+                    shared[c['sslot']] = build_start(c['x0'], c['x0_kind'], c['x0_layout'])
+                params0 = shared[c['sslot']]              # the SAME start object for every call that shares the slot
+            else:
+                params0 = build_start(c['x0'], c['x0_kind'], c['x0_layout'])
+            here.append(self._one_call(mcmc, c, boxes[c['tslot']], params0))
+        recs = []
+        for k, c in enumerate(calls):                     # every call once more, as the only call ever made
+            box = TargetBox(case['targets'][c['tslot']], case['styles'][c['tslot']], case['wrapnp'][c['tslot']])
+            fresh = self._one_call(fresh_module(), c, box, build_start(c['x0'], c['x0_kind'], c['x0_layout']))
+            sh, sf = raw_signature(here[k]['res'], here[k]['rec']), raw_signature(fresh['res'], fresh['rec'])
+            diff = [key for key in ('stream', 'grad', 'target', 'exp', 'res') if sh[key] != sf[key]]
+            interns = (Intern(), Intern(), Intern(), Intern(), Intern())
+            out_f = self._call_out(c, fresh, box.f, interns)
+            out_h = self._call_out(c, here[k], box.f, interns)
+            recs.append(dict(fresh=out_f, here=out_h, diff=diff, n_draws=[len(sh['stream']), len(sf['stream'])],
+                             n_grad=[len(sh['grad']), len(sf['grad'])], sig=hashlib.sha1(json.dumps(sh, sort_keys=True).encode()).hexdigest()))
+        # calls with identical arguments (same target callable, same numbers in the same storage, same settings and seed)
+        keyof = lambda c: json.dumps({k: v for k, v in c.items() if k not in ('share_start',)}, sort_keys=True)
+        ident = []
+        for i in range(len(calls)):
+            for j in range(i + 1, len(calls)):
+                if keyof(calls[i]) == keyof(calls[j]):
+                    ident.append([i, j, recs[i]['sig'] == recs[j]['sig']])
+        return dict(alg='history', calls=recs, identical=ident)
+
+    @staticmethod
+    def _met_out(res, rec, params0, dtype):
+        """the record of one metropolis call (res: the returned array as float64, or an outcome string)"""
         out = dict(alg='metropolis')
         out['events'] = ''.join({'randn': 'N', 'rand': 'U', 'exp': 'E', 'target': 'T'}.get(e[0], '?') for e in rec.ev)
         out['stream'] = [['n', [fh(x) for x in e[1]]] if e[0] == 'randn' else ['u', fh(e[1])]
@@ -501,26 +787,8 @@ class C09(PropCheck):
             out['res'] = 'chain'
             out['shape'] = list(res.shape)
             out['start_shape'] = list(np.shape(params0))
-            out['out_dtype'] = dtypes[0]
+            out['out_dtype'] = dtype
             out['chain'] = [[fh(x) for x in np.asarray(row).ravel()] for row in res]
-        if case['rs'] == 'seed' and out['res'] != 'rejected':
-            plain = call(None)
-            again = call(None)
-            same = (isinstance(plain, str) and plain == res) or (not isinstance(plain, str) and not isinstance(res, str)
-                                                               and plain.tobytes() == res.tobytes())
-            det = (isinstance(plain, str) and plain == again) or (not isinstance(plain, str) and not isinstance(again, str)
-                                                                 and plain.tobytes() == again.tobytes())
-            out['plain_same'] = bool(same)
-            out['deterministic'] = bool(det)
-            # the stream an independent RandomState(seed) yields for the same calls
-            rs = np.random.RandomState(case['seed'])
-            ind = []
-            shp = np.shape(params0)
-            for _ in range(len(out['stream']) // 2):
-                ind.append(['n', [fh(x) for x in rs.randn(*shp).ravel()]])
-                ind.append(['u', fh(rs.rand())])
-            out['stream_independent'] = (ind == out['stream'])
-        out['inputs_untouched'] = bool((snapshot(params0), snapshot(sigma)) == snap0)
         return out
 
     def run_nuts(self, case):
@@ -540,28 +808,27 @@ class C09(PropCheck):
                 if rec is not None:
                     rec.ev.append(('target', np.array(x, dtype=float, copy=True).ravel(), float(v)))
                 return v
-            try:
-                res = mcmc.nuts(case['n_iter'], params0, rtarget, g, **kw)
-                dtypes.append(str(getattr(res, 'dtype', type(res).__name__)))
-                return np.array(res, dtype=float)
-            except (AttributeError, IndexError, TypeError) as e:
-                if kind in OUT_OF_DOMAIN:
-                    return 'rejected'      # the entry point does not take this container
-                return 'crash: %s: %s' % (type(e).__name__, e)
-            except ValueError as e:
-                if 'Bad initialization' in str(e):
-                    return 'badinit'
-                if 'Cannot find acceptable stepsize' in str(e):
-                    return 'initfail'
-                return 'crash: %s: %s' % (type(e).__name__, e)
-            except SystemExit as e:
-                return 'initfail'
-            except Exception as e:
-                return 'crash: %s: %s' % (type(e).__name__, e)
+            return self._nuts_invoke(mcmc, case, params0, rtarget, g, dtypes)
 
         rec = Rec()
+        res, top = self._nuts_patched(mcmc, rec, lambda: call(rec))
+        out = dict(alg='nuts')
+        out['inputs_untouched'] = bool(snapshot(params0) == snap0)
+        if isinstance(res, str):
+            return self._nuts_canon(case, out, res, rec, top, x0, f, params0, None)
+        plain = call(None)
+        again = call(None)
+        out['inputs_untouched'] = bool(snapshot(params0) == snap0)
+        out['plain_same'] = bool(not isinstance(plain, str) and plain.tobytes() == res.tobytes())
+        out['deterministic'] = bool(not isinstance(plain, str) and not isinstance(again, str) and plain.tobytes() == again.tobytes())
+        return self._nuts_canon(case, out, res, rec, top, x0, f, params0, dtypes[0])
+
+    @staticmethod
+    def _nuts_patched(mod, rec, thunk):
+        """run thunk() with the name `np` and `_build_tree_nuts` of module `mod` replaced by the recording versions;
+        returns (thunk's value, the logged top-level tree calls)"""
         top, stack = [], []
-        orig = mcmc._build_tree_nuts
+        orig = mod._build_tree_nuts
 
         def wrapper(params, momentum, log_slicevar, step, depth, *rest):
             node = dict(depth=int(depth), params=np.array(params, dtype=float, copy=True), momentum=np.array(momentum, dtype=float, copy=True),
@@ -576,16 +843,20 @@ class C09(PropCheck):
             node['ev1'] = len(rec.ev)
             return o
 
-        old = mcmc.np
-        mcmc.np = NpProxy(rec, lambda seed: RecRS(seed, rec))
-        mcmc._build_tree_nuts = wrapper
+        old = mod.np
+        mod.np = NpProxy(rec, lambda seed: RecRS(seed, rec))
+        mod._build_tree_nuts = wrapper
         try:
-            res = call(rec)
+            res = thunk()
         finally:
-            mcmc.np = old
-            mcmc._build_tree_nuts = orig
-        out = dict(alg='nuts')
-        out['inputs_untouched'] = bool(snapshot(params0) == snap0)
+            mod.np = old
+            mod._build_tree_nuts = orig
+        return res, top
+
+    @staticmethod
+    def _nuts_canon(case, out, res, rec, top, x0, f, params0, dtype, interns=None):
+        """the record of one nuts call from its raw log; `interns` = the five interning tables (shared between the two
+        records of one call of a history, so that equal bytes get equal ids in both)"""
         if isinstance(res, str):
             out['res'] = res if not res.startswith('crash') else 'crash'
             out['msg'] = res
@@ -595,17 +866,12 @@ class C09(PropCheck):
         out['res'] = 'chain'
         out['shape'] = list(res.shape)
         out['start_shape'] = list(np.shape(params0))
-        out['out_dtype'] = dtypes[0]
-        plain = call(None)
-        again = call(None)
-        out['inputs_untouched'] = bool(snapshot(params0) == snap0)
-        out['plain_same'] = bool(not isinstance(plain, str) and plain.tobytes() == res.tobytes())
-        out['deterministic'] = bool(not isinstance(plain, str) and not isinstance(again, str) and plain.tobytes() == again.tobytes())
+        out['out_dtype'] = dtype
         out['direct_good'] = [bool(good_value(f(row))) for row in res]
         out['start_good'] = bool(good_value(f(x0)))
 
         # ---- canonicalise: intern arrays and floats
-        P, M, SZ, SV, E = Intern(), Intern(), Intern(), Intern(), Intern()
+        P, M, SZ, SV, E = interns if interns is not None else (Intern(), Intern(), Intern(), Intern(), Intern())
         tvals = {}
         for e in rec.ev:
             if e[0] == 'target':
@@ -702,6 +968,36 @@ class C09(PropCheck):
 
     # -- python-side clauses -----------------------------------------------------------------------
     def py_check(self, case, out):
+        if out['alg'] != 'history':
+            return self._py_single(case, out)
+        bad = []
+        for k, (c, r) in enumerate(zip(case['calls'], out['calls'])):
+            for clause, msg in self._py_single(c, r['here']):
+                bad.append((clause, 'a call of a history: %s' % msg))
+            if r['diff']:
+                what = r['diff'][0]
+                msg = {'stream': 'did not draw from its generator what the call alone draws (another number of draws, or other numbers)',
+                       'grad': 'evaluated the gradient another number of times / at other points than the call alone',
+                       'target': 'evaluated the log-target at other points / another number of times than the call alone',
+                       'exp': 'called np.exp on other values than the call alone',
+                       'res': 'returned a different result than the call alone'}[what]
+                # (which call, its seed and the draw counts are in impl_output: calls[k].diff / n_draws / n_grad)
+                bad.append(('history_fresh', 'a %s call of a history%s %s: the chain depends on the calls made before it in the '
+                            'process, not only on its arguments and seed [differs in: %s]'
+                            % (c['alg'], (' (step size %s)' % ('searched' if c['stepsize'] is None else 'given')) if c['alg'] == 'nuts' else '',
+                               msg, ', '.join(r['diff']))))
+        if not all(same for _, _, same in out['identical']):
+            bad.append(('identical_calls', 'two calls of a history with identical arguments and seed are not bit-identical '
+                                           '(result / draws / evaluations)'))
+        # one message per clause and history (the replay holds the details)
+        seen, uniq = set(), []
+        for b in bad:
+            if b not in seen:
+                seen.add(b)
+                uniq.append(b)
+        return uniq
+
+    def _py_single(self, case, out):
         bad = []
         if out['alg'] == 'moments':
             # statistical clause, support only: wide tolerance, fixed seed
@@ -774,12 +1070,37 @@ class C09(PropCheck):
         elif out['alg'] == 'nuts':
             if out['res'] != 'chain' or not out['n_internal2'] or not out['moved']:
                 return None
+        elif out['alg'] == 'history':
+            # at least two calls on one target callable returned a chain
+            n = {}
+            for c, r in zip(case['calls'], out['calls']):
+                if r['here']['res'] == 'chain':
+                    n[c['tslot']] = n.get(c['tslot'], 0) + 1
+            if max([0] + list(n.values())) < 2:
+                return None
         else:
             return None
         return json.dumps(case, sort_keys=True)
 
     # -- Coq terms ---------------------------------------------------------------------------------
     def to_coq(self, case, out):
+        if out['alg'] == 'history':
+            hs = []
+            for c, r in zip(case['calls'], out['calls']):
+                tf, th = self._coq_single(c, r['fresh']), self._coq_single(c, r['here'])
+                if (tf is None) != (th is None):
+                    raise ValueError('a call of the history has a Coq record alone but not in the history (or vice versa): %s / %s'
+                                     % (r['fresh']['res'], r['here']['res']))
+                if tf is not None and tf == th:
+                    # the two records print to the same term: written once (halves the case file; same value)
+                    hs.append('(let c := %s in {| hc_fresh := c; hc_here := c |})' % tf)
+                elif tf is not None:
+                    hs.append('{| hc_fresh := %s; hc_here := %s |}' % (tf, th))
+            return 'History %s' % clist(hs) if hs else None
+        t = self._coq_single(case, out)
+        return None if t is None else 'Single (%s)' % t
+
+    def _coq_single(self, case, out):
         if out['alg'] == 'metropolis':
             if out['res'] == 'rejected':
                 return None
